@@ -607,7 +607,8 @@ def threads_stage(prop, tier, seed, races=6, race_threads=8):
     t0 = time.time()
     wd = vlib.workdir(f"{prop}_threads")
     q = tier == "quick"
-    cfg = lambda sticky: (f'CONSTANTS NThreads = {2 if q else 3} MaxLen = {3 if q else 4} Sticky = {"TRUE" if sticky else "FALSE"} Tier = "{tier}"\n'
+    # (thorough: 3 threads x 3 steps over the 16-call menu = 110 592 histories, of which 6 000 are executed; a fourth step would be 5.3 million)
+    cfg = lambda sticky: (f'CONSTANTS NThreads = {2 if q else 3} MaxLen = 3 Sticky = {"TRUE" if sticky else "FALSE"} Tier = "{tier}"\n'
                           f"SPECIFICATION Spec\nINVARIANTS Pure{'' if sticky else ' Emit'}\nCHECK_DEADLOCK FALSE\n")
     r = vlib.run_tlc("MC_Histories", cfg(False), wd, workers=8, timeout=3000)
     if not r["ok"]:
@@ -630,10 +631,11 @@ def threads_stage(prop, tier, seed, races=6, race_threads=8):
         def related(h):
             st_ = h["steps"]
             return any(st_[i]["th"] == st_[j]["th"] and (st_[i]["call"], st_[j]["call"]) in pairs for i in range(len(st_)) for j in range(i + 1, len(st_)))
-        must = [h for h in hist if related(h)]
-        must = rng.sample(must, min(len(must), limit // 2))
-        rest = [h for h in hist if h not in must]
-        hist = must + rng.sample(rest, limit - len(must))
+        rel = [i for i, h in enumerate(hist) if related(h)]
+        keep = set(rng.sample(rel, min(len(rel), limit // 2)))
+        rest = [i for i in range(len(hist)) if i not in keep]
+        keep |= set(rng.sample(rest, limit - len(keep)))
+        hist = [hist[i] for i in sorted(keep)]
     hp = os.path.join(wd, "hist.ndjson")
     with open(hp, "w") as fh:
         for h in hist:
